@@ -95,7 +95,7 @@ def generate(seed, tier="quick"):
                 st["select"] = srng.randint(0, 99)
             steps.append(st)
             if sub(seed, f"cwd{len(steps)}").random() < 0.2:
-                st["from_parent"] = True  # started one directory above the project, which is named on the command line
+                st[sub(seed, f"cwdk{len(steps)}").choice(["from_parent", "from_sibling"])] = True  # started outside the project, which is named on the command line
         elif r < 0.68:
             steps.append({"k": "edit_data", "seed": srng.randint(0, 10**9)})
         elif r < 0.76:
@@ -256,9 +256,10 @@ def execute(case, ctx):
             names = [t["name"] for f in prog["files"] for t in f["tests"]]
             selected = names[step["select"] % len(names)]
             argv = ["-k", selected]
-        if step.get("from_parent"):
+        if step.get("from_parent") or step.get("from_sibling"):
             ctx.count("probe_session_started_outside_the_project_directory")
-        new, res = sim.run_session(ctx, "plugin", files, {"flags": step.get("flags"), "answers": step.get("answers"), "argv": argv, "from_parent": bool(step.get("from_parent"))}, timeout=90)
+        new, res = sim.run_session(ctx, "plugin", files, {"flags": step.get("flags"), "answers": step.get("answers"), "argv": argv, "from_parent": bool(step.get("from_parent")),
+                                                        "from_sibling": bool(step.get("from_sibling"))}, timeout=90)
         if not sim.session_completed("plugin", res):
             out["discards"]["session-did-not-complete(C18)"] = 1
             return out
